@@ -90,13 +90,19 @@ Definition is_nil {A} (l : list A) : bool := match l with [] => true | _ => fals
 
 (* number = [ minus ] int [ frac ] [ exp ];  int = zero / ( digit1-9 *DIGIT ) *)
 Definition parse_number_tok (tok : list N) : option jnum :=
-  let '(neg, r0) := match tok with 45 :: r => (true, r) | _ => (false, tok) end in
+  let '(neg, r0) := match tok with
+                    | c :: r => if c =? 45 then (true, r) else (false, tok)
+                    | [] => (false, tok)
+                    end in
   let '(ip, r1) := span is_digit r0 in
-  if is_nil ip || match ip with 48 :: _ :: _ => true | _ => false end then None else
+  if is_nil ip || match ip with c :: _ :: _ => c =? 48 | _ => false end then None else
   let frac := match r1 with
-              | 46 :: r => let '(fp, r') := span is_digit r in
-                           if is_nil fp then None else Some (Some fp, r')
-              | _ => Some (None, r1)
+              | c :: r =>
+                  if c =? 46 then
+                    let '(fp, r') := span is_digit r in
+                    if is_nil fp then None else Some (Some fp, r')
+                  else Some (None, r1)
+              | [] => Some (None, r1)
               end in
   match frac with
   | None => None
@@ -105,7 +111,9 @@ Definition parse_number_tok (tok : list N) : option jnum :=
                 | c :: r =>
                     if (c =? 101) || (c =? 69) then
                       let '(eneg, r') := match r with
-                                         | 45 :: r' => (true, r') | 43 :: r' => (false, r') | _ => (false, r)
+                                         | s :: r' => if s =? 45 then (true, r')
+                                                      else if s =? 43 then (false, r') else (false, r)
+                                         | [] => (false, r)
                                          end in
                       let '(ep, r'') := span is_digit r' in
                       if is_nil ep then None
@@ -215,13 +223,17 @@ Fixpoint parse_value (fuel : nat) (l : list N) {struct fuel} : option (json * li
             match parse_string_body r with Some (s, r') => Some (JStr s, r') | None => None end
           else if c =? 91 then
             match skip_ws r with
-            | 93 :: r' => Some (JArr [], r')
-            | _ => match parse_elems f r with Some (xs, r') => Some (JArr xs, r') | None => None end
+            | [] => None
+            | d :: r' =>
+                if d =? 93 then Some (JArr [], r')
+                else match parse_elems f r with Some (xs, r'') => Some (JArr xs, r'') | None => None end
             end
           else if c =? 123 then
             match skip_ws r with
-            | 125 :: r' => Some (JObj [], r')
-            | _ => match parse_members f r with Some (ms, r') => Some (JObj ms, r') | None => None end
+            | [] => None
+            | d :: r' =>
+                if d =? 125 then Some (JObj [], r')
+                else match parse_members f r with Some (ms, r'') => Some (JObj ms, r'') | None => None end
             end
           else
             let '(tok, r') := span is_numchar (c :: r) in
@@ -236,9 +248,12 @@ with parse_elems (fuel : nat) (l : list N) {struct fuel} : option (list json * l
       | None => None
       | Some (x, r) =>
           match skip_ws r with
-          | 44 :: r' => match parse_elems f r' with Some (xs, r'') => Some (x :: xs, r'') | None => None end
-          | 93 :: r' => Some ([x], r')
-          | _ => None
+          | [] => None
+          | d :: r' =>
+              if d =? 44 then
+                match parse_elems f r' with Some (xs, r'') => Some (x :: xs, r'') | None => None end
+              else if d =? 93 then Some ([x], r')
+              else None
           end
       end
   end
@@ -247,32 +262,37 @@ with parse_members (fuel : nat) (l : list N) {struct fuel} : option (list (list 
   | O => None
   | S f =>
       match skip_ws l with
-      | 34 :: r0 =>
+      | [] => None
+      | q :: r0 =>
+          if negb (q =? 34) then None else
           match parse_string_body r0 with
           | None => None
           | Some (k, r1) =>
               match skip_ws r1 with
-              | 58 :: r2 =>
+              | [] => None
+              | cl :: r2 =>
+                  if negb (cl =? 58) then None else
                   match parse_value f r2 with
                   | None => None
                   | Some (x, r3) =>
                       match skip_ws r3 with
-                      | 44 :: r4 => match parse_members f r4 with
-                                    | Some (ms, r5) => Some ((k, x) :: ms, r5) | None => None end
-                      | 125 :: r4 => Some ([(k, x)], r4)
-                      | _ => None
+                      | [] => None
+                      | d :: r4 =>
+                          if d =? 44 then
+                            match parse_members f r4 with
+                            | Some (ms, r5) => Some ((k, x) :: ms, r5) | None => None end
+                          else if d =? 125 then Some ([(k, x)], r4)
+                          else None
                       end
                   end
-              | _ => None
               end
           end
-      | _ => None
       end
   end.
 
-(* JSON-text = ws value ws *)
+(* JSON-text = ws value ws (the fuel is generous: two units per input byte) *)
 Definition json_read (l : list N) : option json :=
-  match parse_value (S (length l)) l with
+  match parse_value (S (2 * length l)) l with
   | Some (j, r) => if is_nil (skip_ws r) then Some j else None
   | None => None
   end.
